@@ -105,7 +105,7 @@ Lemma hide_block_ok fx le fes n :
   exists out, merge_link_files fx [le] fes = Ok out.
 Proof.
   intros S M D H. unfold merge_link_files. cbn [merge_loop]. rewrite M, D, H, S.
-  destruct (remove_origin n fes); cbn [merge_loop]; eauto.
+  cbn [negb]. destruct (remove_origin n fes); eauto.
 Qed.
 
 Lemma link_hides_repaired t : fx_dash_hides repaired = true /\ link_hides repaired t = cap_hides t.
@@ -241,6 +241,97 @@ Lemma key_classes e nm :
   e_name e = Some nm ->
   entry_key e = ((if (0 <? getnum0 e)%Z then 0 else if (getnum0 e =? 0)%Z then 1 else 2), (getnum0 e, nm)).
 Proof. intros H. unfold entry_key, num_class. now rewrite H. Qed.
+
+(* ================= MergeLinkFiles vs the reference reading, one block ================= *)
+(* ---- one block: MergeLinkFiles = the reference reading's apply_block ---- *)
+Definition all_from_dir (fes : list oentry) : bool := forallb (fun oe => negb (isnone (fst oe))) fes.
+Definition sel_matches (sel : str) (oe : oentry) : bool := str_eqb (e_selector (snd oe)) sel.
+
+Lemma no_match_fold sel r acc :
+  forallb (fun oe => negb (sel_matches sel oe)) r = true ->
+  fold_left (fun acc oe => if str_eqb (e_selector (snd oe)) sel then fst oe else acc) r acc = acc.
+Proof.
+  revert acc. induction r as [|oe r IH]; intros acc H; [reflexivity|].
+  cbn [forallb] in H. apply andb_true_iff in H as [H1 H2]. apply negb_true_iff in H1.
+  unfold sel_matches in H1. cbn [fold_left]. rewrite H1. now apply IH.
+Qed.
+
+Lemma no_match_find sel r :
+  forallb (fun oe => negb (sel_matches sel oe)) r = true -> find_target r sel = None.
+Proof.
+  induction r as [|oe r IH]; intros H; [reflexivity|].
+  cbn [forallb] in H. apply andb_true_iff in H as [H1 H2]. apply negb_true_iff in H1.
+  unfold sel_matches in H1. unfold find_target. cbn [first_some]. rewrite H1.
+  destruct (fst oe); now apply IH.
+Qed.
+
+Lemma nodup_sel_no_match oe r :
+  NoDup (map (fun x : oentry => e_selector (snd x)) (oe :: r)) ->
+  forallb (fun x => negb (sel_matches (e_selector (snd oe)) x)) r = true.
+Proof.
+  intros ND. inversion ND as [|? ? Hn Hr]. subst. apply forallb_forall. intros x I.
+  apply negb_true_iff. unfold sel_matches. apply str_eqb_neq. intro E. apply Hn.
+  rewrite <- E. now apply (in_map (fun x : oentry => e_selector (snd x))).
+Qed.
+
+Lemma dict_fold_find fes sel : forall acc,
+  all_from_dir fes = true -> NoDup (map (fun oe : oentry => e_selector (snd oe)) fes) ->
+  fold_left (fun acc oe => if str_eqb (e_selector (snd oe)) sel then fst oe else acc) fes acc =
+  match find_target fes sel with Some n => Some n | None => acc end.
+Proof.
+  induction fes as [|oe r IH]; intros acc A ND; [reflexivity|].
+  cbn [all_from_dir forallb] in A. apply andb_true_iff in A as [A1 A2].
+  cbn [fold_left]. unfold find_target. cbn [first_some]. fold (find_target r sel).
+  destruct (str_eqb (e_selector (snd oe)) sel) eqn:E.
+  - apply str_eqb_eq in E. subst sel. pose proof (nodup_sel_no_match oe r ND) as NM.
+    rewrite (no_match_fold _ r _ NM). destruct (fst oe) as [n|]; [reflexivity | discriminate].
+  - assert (T : match fst oe with Some n => (if false then Some n else None) | None => @None str end = None)
+      by (destruct (fst oe); reflexivity).
+    rewrite T. apply IH; [exact A2 | now inversion ND].
+Qed.
+
+Lemma dict_is_find fes sel :
+  all_from_dir fes = true -> NoDup (map (fun oe : oentry => e_selector (snd oe)) fes) ->
+  dict_lookup fes sel = find_target fes sel.
+Proof.
+  intros A ND. unfold dict_lookup. rewrite (dict_fold_find fes sel None A ND).
+  destruct (find_target fes sel); reflexivity.
+Qed.
+
+Lemma remove_origin_filter n l :
+  NoDup (dir_names l) ->
+  match remove_origin n l with Some l' => l' | None => l end = filter (fun oe => negb (origin_is n oe)) l.
+Proof.
+  induction l as [|oe r IH]; intros ND; [reflexivity|]. cbn [remove_origin filter].
+  destruct (origin_is n oe) eqn:O; cbn [negb].
+  - unfold origin_is in O. destruct oe as [[m|] e]; cbn [fst] in O; [|discriminate].
+    apply str_eqb_eq in O. subst m. cbn [dir_names] in ND. inversion ND as [|? ? Hn Hr]. subst.
+    symmetry. apply filter_all. intros x Ix. apply negb_true_iff. unfold origin_is.
+    destruct x as [[m|] e']; cbn [fst]; [|reflexivity]. apply str_eqb_neq. intro Em. subst m.
+    apply Hn. clear - Ix. induction r as [|[[k|] e2] r IH]; cbn [dir_names]; [destruct Ix| |].
+    + destruct Ix as [Ix|Ix]; [inversion Ix; now left | right; now apply IH].
+    + destruct Ix as [Ix|Ix]; [discriminate | now apply IH].
+  - assert (ND' : NoDup (dir_names r)).
+    { destruct oe as [[m|] e]; cbn [dir_names] in ND; [now inversion ND | exact ND]. }
+    specialize (IH ND'). destruct (remove_origin n r) as [r'|]; cbn [option_map]; now rewrite <- IH.
+Qed.
+
+Lemma one_block_is_apply_block fx le fes :
+  fx_dash_hides fx = true -> fx_remove_safe fx = true ->
+  all_from_dir fes = true -> NoDup (map (fun oe : oentry => e_selector (snd oe)) fes) ->
+  NoDup (dir_names fes) ->
+  merge_link_files fx [le] fes = Ok (apply_block fes le).
+Proof.
+  intros Fd Fr A NDs NDn. unfold merge_link_files, apply_block. cbn [merge_loop].
+  rewrite (dict_is_find fes _ A NDs).
+  destruct (le_merge le); cbn [negb]; [|reflexivity].
+  destruct (find_target fes (e_selector (le_entry le))) as [n|]; [|reflexivity].
+  assert (H : link_hides fx (e_type (le_entry le)) = spec_hides (e_type (le_entry le))).
+  { unfold link_hides, spec_hides, cap_hides. rewrite Fd. destruct (e_type (le_entry le)); reflexivity. }
+  rewrite H. destruct (spec_hides (e_type (le_entry le))); [|reflexivity].
+  rewrite Fr. pose proof (remove_origin_filter n fes NDn) as R.
+  destruct (remove_origin n fes); now rewrite <- R.
+Qed.
 
 (* ================= the two documented discrepancies of the pinned code ================= *)
 Definition file_info (sel nm : str) : child_info :=
